@@ -24,7 +24,14 @@ Interface:
 
     from runtrace import validate_runs, CLAUSE_PROPERTY, mine
     rejected = validate_runs(ctx, runs)        # runs: list of RunResult (or anything with .trace/.code/.timed_out;
-                                               #       optional .expect (dict) and .changed (list of file paths))
+                                               #       optional .expect (dict), .changed (list of file paths), .cwd)
+
+    .changed / .cwd     `.changed` lists the FILES whose content differs after the run (absolute, or relative to the run's
+                        working directory).  Clause only-written-files-changed compares them with the files of the Write
+                        events.  Both sides are NORMALISED first -- joined with `.cwd` (the directory mockery ran in) when
+                        relative, then cleaned (os.path.normpath) -- because a relative `dir` makes Write.file relative
+                        while a tree diff is usually absolute.  If a Write.file or a `.changed` path is relative and no
+                        `.cwd` is given the comparison cannot be decided and no Tree event is appended (never a rejection).
     for r in rejected:                         # [] when every run is accepted
         ...r["why"] (violated clause names), r["props"] (the property ids they belong to), r["event"], r["at"]
 
@@ -44,6 +51,7 @@ from __future__ import annotations
 
 import copy
 import json
+import os
 
 from vlib import MachineryError
 
@@ -106,8 +114,19 @@ def segs(path):
     return [s for s in str(path).split("/") if s != ""]
 
 
-def project(events, run=0):
-    """Raw hook events of one run -> the records MockerySkeleton!Chk reads.  Only renames fields and splits paths."""
+def norm_path(path, cwd):
+    """absolute, cleaned spelling of a path of the run (None: relative and no cwd known)"""
+    p = str(path)
+    if not os.path.isabs(p):
+        if not cwd:
+            return None
+        p = os.path.join(str(cwd), p)
+    return os.path.normpath(p)
+
+
+def project(events, run=0, cwd=None):
+    """Raw hook events of one run -> the records MockerySkeleton!Chk reads.  Only renames fields, splits paths and adds
+    the normalised spelling `nfile` of a written file."""
     out = []
     for e in events:
         ev = e.get("ev")
@@ -153,6 +172,9 @@ def project(events, run=0):
                      validated=bool(e.get("validated", False)))
         elif ev in ("Generated", "Write"):
             r.update(file=str(e.get("file", "")), bytes=int(e.get("bytes", -1)))
+            if ev == "Write":
+                n = norm_path(r["file"], cwd)
+                r["nfile"] = n if n is not None else "?relative:" + r["file"]
         elif ev == "Exists":
             r.update(file=str(e.get("file", "")), exists=bool(e.get("exists", False)), force=bool(e.get("force", False)))
         elif ev == "Missing":
@@ -170,12 +192,16 @@ def run_events(r, run=0):
     """reset + projected events + ProcExit (+ Tree) for one RunResult."""
     exp = getattr(r, "expect", None)
     reset = {"ev": "reset", "run": run, "hasexp": exp is not None, "exp": exp if exp is not None else EMPTY_EXP}
-    evs = [reset] + project(getattr(r, "trace", None) or [], run)
+    cwd = getattr(r, "cwd", None)
+    evs = [reset] + project(getattr(r, "trace", None) or [], run, cwd)
     if not getattr(r, "timed_out", False) and getattr(r, "code", None) is not None:
         evs.append({"ev": "ProcExit", "run": run, "code": int(r.code)})
         ch = getattr(r, "changed", None)
         if ch is not None:
-            evs.append({"ev": "Tree", "run": run, "changed": [str(x) for x in ch]})
+            nch = [norm_path(x, cwd) for x in ch]
+            undecidable = any(x is None for x in nch) or any(e["ev"] == "Write" and e["nfile"].startswith("?relative:") for e in evs)
+            if not undecidable:
+                evs.append({"ev": "Tree", "run": run, "changed": nch})
     return evs
 
 
@@ -363,6 +389,12 @@ def corruptions():
     @add("write-for-uncollected-file", {"is-current-file"})
     def _(evs):
         evs[_first(evs, lambda e: e["ev"] == "Write")]["file"] += ".other"
+
+    @add("tree-changed-an-unwritten-file", {"only-written-files-changed"})
+    def _(evs):
+        k = _first(evs, lambda e: e["ev"] == "ProcExit")
+        w = [e["nfile"] for e in evs if e["ev"] == "Write"]
+        evs[k + 1:] = [{"ev": "Tree", "run": evs[k]["run"], "changed": w + [w[0] + ".stamp"]}]
 
     @add("missing-for-a-selected-interface", {"missing-interface-was-never-discovered"})
     def _(evs):
